@@ -86,6 +86,8 @@ def staged_doc(prog, max_blocks=60, methods_too=False):
             continue
         if f.get("vis") == "pub":
             continue
+        if f.get("output") == "bool" and (f.get("inputs") or []) in (["char"], ["&char"]):
+            continue                    # a character-class predicate is part of the rules' vocabulary (its set is read from it)
         cs = prog.call_sites.get(k, [])
         callers = sorted({c[0] for c in cs})
         if not cs or k in callers:
@@ -153,8 +155,155 @@ def staged_doc(prog, max_blocks=60, methods_too=False):
             if nf.get("root") in gone:
                 nf["root"] = sorted(hosts_of(nf["root"]))[0]
             fns[k] = nf
+    try:
+        redispatch_loops_to_recursion(fns)
+    except Exception:
+        pass
     doc["fns"] = fns
     return doc, {k: sorted(hosts_of(k))[0] for k in sorted(gone)}
+
+
+def redispatch_loops_to_recursion(fns):
+    """`fn w(&mut self, a, b) { while let Again = self.g(a, b) {} }` with a private `g` that answers with a field-less two-variant enum is the
+    tail recursion `g: … Again ⇒ { w(self, a, b); Done }` written as a loop (the loop body is empty, so the next pass starts exactly as the
+    recursive call would).  Rewrites such a pair into the recursive form on a copy: every `return Again` of g becomes a call of w followed by
+    `return Done`, and w calls g once.  Returns the set of rewritten wrappers.  Behaviour-preserving by construction."""
+    import copy
+    done = set()
+    callers = defaultdict(set)
+    for k, f in fns.items():
+        for b in f["mir"]["blocks"]:
+            t = b["term"]
+            if t["k"] == "call" and "callee" in t:
+                c = t["callee"]
+                g = c.get("resolved") or c.get("path")
+                if g in fns:
+                    callers[g].add(k)
+    for wk, wf in list(fns.items()):
+        m = wf["mir"]
+        live = [(i, b) for i, b in enumerate(m["blocks"]) if not b.get("cleanup")]
+        calls = [(i, b) for i, b in live if b["term"]["k"] == "call" and "callee" in b["term"]]
+        if wf.get("kind") == "Closure" or len(calls) != 1 or len(live) > 8:
+            continue
+        ci, cb = calls[0]
+        t = cb["term"]
+        gk = t["callee"].get("resolved") or t["callee"].get("path")
+        if gk not in fns or gk == wk or callers.get(gk) != {wk} or t["dest"]["p"]:
+            continue
+        gf = fns[gk]
+        ety = gf["mir"]["locals"][0]["ty"]
+        if gf.get("vis") == "pub" or len(t["args"]) != m["arg_count"] or gf["mir"]["arg_count"] != m["arg_count"]:
+            continue
+        # the call's arguments are (reborrows / copies of) w's own parameters, in order
+        okargs = True
+        defs = {}
+        for st in cb["stmts"]:
+            if st["k"] == "assign" and not st["place"]["p"]:
+                defs[st["place"]["l"]] = st["rv"]
+        for ai, a in enumerate(t["args"], start=1):
+            if a.get("k") not in ("move", "copy") or a["place"]["p"]:
+                okargs = False
+                break
+            l = a["place"]["l"]
+            if l == ai:
+                continue
+            rv = defs.get(l)
+            if not rv:
+                okargs = False
+                break
+            src = rv.get("place") if rv["k"] == "ref" else (rv.get("op", {}).get("place") if rv["k"] == "use" else None)
+            if not src or src["l"] != ai or [p_ for p_ in src["p"] if p_ != "*"]:
+                okargs = False
+                break
+        if not okargs or t.get("target") is None:
+            continue
+        # after the call: switch on the result's discriminant, one value loops back to the call, the other leaves
+        sb = m["blocks"][t["target"]]
+        st_ = sb["term"]
+        if st_["k"] != "switch" or st_.get("discr_ty") != "isize" or len(st_["targets"]) != 1:
+            continue
+        dl = st_["discr"].get("place", {}).get("l")
+        isdiscr = any(x["k"] == "assign" and x["place"]["l"] == dl and x["rv"]["k"] == "discr" and x["rv"]["place"]["l"] == t["dest"]["l"] for x in sb["stmts"])
+        if not isdiscr:
+            continue
+        again_val, again_tgt = st_["targets"][0]
+        exit_tgt = st_["otherwise"]
+
+        def reaches_call(bi, depth=0):
+            b_ = m["blocks"][bi]
+            if bi == ci:
+                return True
+            if depth > 4 or b_["term"]["k"] != "goto":
+                return False
+            if any(x["k"] == "assign" and x["rv"]["k"] not in ("use",) for x in b_["stmts"]):
+                return False
+            return reaches_call(b_["term"]["target"], depth + 1)
+        if not reaches_call(again_tgt):
+            # the exit may be the listed value and the loop the `otherwise` edge
+            if reaches_call(exit_tgt):
+                again_tgt, exit_tgt = exit_tgt, again_tgt
+                again_val = 1 - again_val
+            else:
+                continue
+        if again_val not in (0, 1):
+            continue
+        # g answers with aggregates of a two-variant field-less enum only
+        gm = copy.deepcopy(gf["mir"])
+        sites = []
+        bad = False
+        for bi, b_ in enumerate(gm["blocks"]):
+            for si, x in enumerate(b_["stmts"]):
+                if x["k"] == "assign" and x["place"]["l"] == 0 and not x["place"]["p"]:
+                    rv = x["rv"]
+                    if rv["k"] == "aggregate" and rv.get("agg") == "adt" and rv.get("adt") == ety and not rv.get("ops"):
+                        if rv.get("vidx") == again_val:
+                            sites.append((bi, si))
+                    else:
+                        bad = True
+        if bad or not sites:
+            continue
+        done_variant = None
+        for b_ in gm["blocks"]:
+            for x in b_["stmts"]:
+                if x["k"] == "assign" and x["place"]["l"] == 0 and x["rv"].get("vidx") == 1 - again_val:
+                    done_variant = x["rv"]
+        if done_variant is None:
+            continue
+        unit_l = len(gm["locals"])
+        gm["locals"].append({"ty": "()", "name": None})
+        for (bi, si) in sorted(sites, reverse=True):
+            b_ = gm["blocks"][bi]
+            tail = {"stmts": b_["stmts"][si:], "term": b_["term"]}
+            for k2 in b_:
+                if k2 not in ("stmts", "term"):
+                    tail[k2] = b_[k2]
+            tail["stmts"][0] = dict(tail["stmts"][0], rv=copy.deepcopy(done_variant))
+            nbi = len(gm["blocks"])
+            gm["blocks"].append(tail)
+            call = copy.deepcopy(t)
+            call["callee"] = dict(t["callee"], path=wk, full=wk, resolved=wk, name=wk.rsplit("::", 1)[-1])
+            call["args"] = [{"k": "move" if gm["locals"][ai]["ty"].startswith("&mut") else "copy",
+                             "place": {"l": ai, "p": [], "ty": gm["locals"][ai]["ty"]}} for ai in range(1, gm["arg_count"] + 1)]
+            call["dest"] = {"l": unit_l, "p": [], "ty": "()"}
+            call["target"] = nbi
+            call["loc"] = b_["stmts"][si].get("loc", t.get("loc"))
+            call.pop("cleanup", None)
+            call.pop("unwind", None)
+            b_["stmts"] = b_["stmts"][:si]
+            b_["term"] = call
+        # w forwards its parameters unchanged and does nothing else: it *is* g now (g's answer is not looked at any more)
+        fns[wk] = dict(wf, mir=gm, promoted=gf.get("promoted", []), redispatch_of=gk)
+        fns.pop(gk, None)
+        for k2, f2 in list(fns.items()):
+            if f2.get("kind") == "Closure" and (f2.get("parent") == gk or f2.get("root") == gk):
+                nf2 = dict(f2)
+                if nf2.get("parent") == gk:
+                    nf2["parent"] = wk
+                if nf2.get("root") == gk:
+                    nf2["root"] = wk
+                fns[k2] = nf2
+        done.add(wk)
+    return done
 
 
 class AnchorError(Exception):
